@@ -8,3 +8,6 @@ pub mod rng;
 pub mod runner;
 pub mod simfs;
 pub mod stream;
+pub mod pers;
+pub mod points;
+pub mod threads;
